@@ -1,1 +1,104 @@
-From V Require Import lib.Verdict C20.Model C20.Proofs.
+(* C20 property theorems only.  [gen cfg fm] is the rule list IptablesConfigurator.Run appends for one
+   address family ([fam_of cfg false] = IPv4, [fam_of cfg true] = IPv6; the theorems hold for every
+   family record), [nat_eval rules hook p] the verdict of the reference netfilter evaluator for the
+   nat table.  All statements are for every configuration and every packet. *)
+From V Require Import lib.Verdict C20.Model C20.Proofs C20.ProofsOut C20.ProofsPre C20.ProofsCor.
+Open Scope N_scope.
+
+(* Full verdict of the generated nat rules at the OUTPUT hook, for every locally generated packet
+   (application or proxy owned, any protocol). *)
+Theorem C20_output_verdict : forall cfg fm p, nat_eval (gen cfg fm) OUTPUT p = spec_out cfg fm p.
+Proof. exact output_verdict. Qed.
+Print Assumptions C20_output_verdict.
+
+(* Full verdict at the PREROUTING hook (REDIRECT and TPROXY mode; nat table). *)
+Theorem C20_prerouting_verdict : forall cfg fm p, nat_eval (gen cfg fm) PREROUTING p = spec_pre cfg fm p.
+Proof. exact prerouting_verdict. Qed.
+Print Assumptions C20_prerouting_verdict.
+
+(* The proxy's own outbound traffic is never redirected into the proxy's outbound port. *)
+Theorem C20_no_self_loop : forall cfg fm p,
+  in_port cfg <> proxy_port cfg -> proxy_pkt cfg p = true ->
+  nat_eval (gen cfg fm) OUTPUT p <> VRedirect (proxy_port cfg).
+Proof. exact no_self_loop. Qed.
+Print Assumptions C20_no_self_loop.
+
+(* Application outbound TCP is redirected iff included and not excluded (range, port, interface,
+   owner group, DNS, loopback). *)
+Theorem C20_outbound : forall cfg fm p,
+  proxy_port cfg <> dns_port -> app_pkt cfg p = true -> is_tcp p = true ->
+  (nat_eval (gen cfg fm) OUTPUT p = VRedirect (proxy_port cfg) <-> should_redirect_out cfg fm p = true).
+Proof. exact outbound_iff. Qed.
+Print Assumptions C20_outbound.
+
+(* Inbound TCP: the statement "redirected iff port included and not excluded" is FALSE of the code
+   when the include list is explicit (the exclude list is then ignored) ... *)
+Theorem C20_inbound_refuted :
+  exists cfg fm p,
+    tproxy cfg = false /\ is_tcp p = true /\
+    mem (k_in p) (virt_ifs cfg) = false /\ mem (k_in p) (excl_ifs cfg) = false /\
+    in_selected_strict cfg p = false /\
+    nat_eval (gen cfg fm) PREROUTING p = VRedirect (in_port cfg).
+Proof. exact inbound_strict_refuted. Qed.
+Print Assumptions C20_inbound_refuted.
+
+(* ... it holds when the include list is "*" or disjoint from the exclude list ... *)
+Theorem C20_inbound_partial : forall cfg fm p,
+  inbound_lists_disjoint cfg ->
+  tproxy cfg = false -> is_tcp p = true ->
+  mem (k_in p) (virt_ifs cfg) = false -> mem (k_in p) (excl_ifs cfg) = false ->
+  (nat_eval (gen cfg fm) PREROUTING p = VRedirect (in_port cfg) <-> in_selected_strict cfg p = true).
+Proof. exact inbound_strict_iff. Qed.
+Print Assumptions C20_inbound_partial.
+
+(* ... and unconditionally for the selection the code implements (exclusions apply with "*" only). *)
+Theorem C20_inbound_as_implemented : forall cfg fm p,
+  tproxy cfg = false -> is_tcp p = true ->
+  mem (k_in p) (virt_ifs cfg) = false -> mem (k_in p) (excl_ifs cfg) = false ->
+  (nat_eval (gen cfg fm) PREROUTING p = VRedirect (in_port cfg) <-> in_selected cfg p = true).
+Proof. exact inbound_iff. Qed.
+Print Assumptions C20_inbound_as_implemented.
+
+(* Loopback traffic between the application and itself is left alone: by destination ... *)
+Theorem C20_loopback_left_alone : forall cfg fm p,
+  app_pkt cfg p = true -> cidr_match (f_loop fm) (k_dst p) = true -> dns_hit cfg fm p = false ->
+  nat_eval (gen cfg fm) OUTPUT p = VAccept.
+Proof. exact loopback_dst_left_alone. Qed.
+Print Assumptions C20_loopback_left_alone.
+
+(* ... and by interface (app -> own pod IP over lo), unless a loopback range was explicitly included. *)
+Theorem C20_loopback_interface_left_alone : forall cfg fm p,
+  app_pkt cfg p = true -> k_out p = lo -> has_lb cfg = false ->
+  (uids cfg <> [] \/ gids cfg <> []) ->
+  (rdns cfg = true -> k_dport p <> 53) ->
+  nat_eval (gen cfg fm) OUTPUT p = VAccept.
+Proof. exact loopback_if_left_alone. Qed.
+Print Assumptions C20_loopback_interface_left_alone.
+
+(* IPv4 and IPv6 rules express the same policy: packets of the two families that fall in the same
+   classes of the configuration get the same verdict at both hooks. *)
+Theorem C20_v4_v6_same_policy : forall cfg p4 p6,
+  same_class cfg p4 p6 ->
+  nat_eval (gen cfg (fam_of cfg false)) OUTPUT p4 = nat_eval (gen cfg (fam_of cfg true)) OUTPUT p6 /\
+  nat_eval (gen cfg (fam_of cfg false)) PREROUTING p4 = nat_eval (gen cfg (fam_of cfg true)) PREROUTING p6.
+Proof. exact v4_v6_same_policy. Qed.
+Print Assumptions C20_v4_v6_same_policy.
+
+(* non-vacuity: with the example configuration (include "*", exclude 10.0.0.0/8) an application packet
+   to 11.0.0.1:80 is redirected, one to 10.0.0.5:80 is not, the proxy's own packet is not, and the
+   hypotheses of C20_outbound / C20_no_self_loop / C20_inbound_partial are satisfiable. *)
+Example C20_nonvacuous :
+  nat_eval (gen ex_cfg (fam_of ex_cfg false)) OUTPUT (ex_pkt 80 184549377 1000) = VRedirect 15001 /\
+  nat_eval (gen ex_cfg (fam_of ex_cfg false)) OUTPUT (ex_pkt 80 167772165 1000) = VAccept /\
+  nat_eval (gen ex_cfg (fam_of ex_cfg false)) OUTPUT (ex_pkt 80 184549377 1337) = VAccept /\
+  app_pkt ex_cfg (ex_pkt 80 184549377 1000) = true /\ proxy_pkt ex_cfg (ex_pkt 80 184549377 1337) = true /\
+  should_redirect_out ex_cfg (fam_of ex_cfg false) (ex_pkt 80 184549377 1000) = true /\
+  nat_eval (gen ex_cfg (fam_of ex_cfg false)) PREROUTING (ex_pkt 80 167772165 0) = VRedirect 15006 /\
+  nat_eval (gen ex_cfg (fam_of ex_cfg false)) PREROUTING (ex_pkt 81 167772165 0) = VAccept.
+Proof. vm_compute. repeat split; reflexivity. Qed.
+
+Example C20_same_class_satisfiable :
+  same_class ex_cfg (ex_pkt 80 184549377 1000)
+    {| k_proto := TCP; k_src := 5; k_dst := 42540766411282592856903984951653826561; k_sport := 40000; k_dport := 80;
+       k_in := 1; k_out := 1; k_uid := 1000; k_gid := 1000; k_mark := 0; k_cmark := 0; k_est := false; k_inv := false |}.
+Proof. vm_compute. repeat split; reflexivity. Qed.
